@@ -220,7 +220,9 @@ def check(pid, tier, seed, jobs, out=print):
         else:
             new_by_key.setdefault(k, v)
     replays = []
-    for k, v in list(new_by_key.items())[:3]:
+    max_report = int(os.environ.get('VERIF_MAX_REPORT', '3') or 3)
+    shrink_wall = float(os.environ.get('VERIF_SHRINK_WALL', '45') or 45)
+    for k, v in list(new_by_key.items())[:max_report]:
         scn = gen(prop, seed, tier, v['index'])
 
         def still(c, k=k):
@@ -229,7 +231,7 @@ def check(pid, tier, seed, jobs, out=print):
             res = prop.execute(c)
             return any(vkey(x) == k for x in res['violations'])
         try:
-            small, used = shrink.minimise(scn, still)
+            small, used = shrink.minimise(scn, still, max_wall=shrink_wall)
         except Exception:
             small, used = scn, 0
         res = prop.execute(small)
